@@ -87,6 +87,28 @@ def handleA (st : St) (n : Nat) (toks : List String) : Result := Id.run do
       if iclient != "skip" && iclient != "notexist" && istatus == 404 then
         let f := fail st n "C16" s!"the bundled client did not map 404 to 'does not exist' ({iclient.take 30})"
         st := f.st; outs := outs ++ f.out
+  else if kind == "cget" then
+    -- a conditional GET with a validator the service handed out earlier together with the bytes `learned`
+    let some id := (get "id").bind hexOfString | return { st, out := [s!"BAD {n} id"] }
+    let some istatus := (get "status").bind String.toNat? | return { st, out := [s!"BAD {n} status"] }
+    let some ibody := (get "body").bind hexOfString | return { st, out := [s!"BAD {n} body"] }
+    let some learned := (get "learned").bind hexOfString | return { st, out := [s!"BAD {n} learned"] }
+    st := st.bump s!"api.cget.{istatus}"
+    let held := store.get id
+    if istatus == 304 then
+      if held != some learned then
+        let f := fail st n "C16" "a revalidating GET was answered 304 Not Modified although the stored checkpoint is no longer the one the validator was handed out with: the client keeps a superseded checkpoint"
+        st := f.st; outs := outs ++ f.out
+    else if istatus == 200 then
+      if held != some ibody then
+        let f := fail st n "C16" "conditional GET returned 200 with bytes that are not the stored checkpoint"
+        st := f.st; outs := outs ++ f.out
+    else if held.isSome then
+      let f := fail st n "C16" s!"conditional GET for a log with a stored checkpoint answered {istatus}"
+      st := f.st; outs := outs ++ f.out
+    if outs.isEmpty then
+      st := { st with nOK := st.nOK + 1 }
+      outs := [s!"OK {n}"]
   else
     let ilist := (get "list").getD "?"
     let some istatus := (get "status").bind String.toNat? | return { st, out := [s!"BAD {n} status"] }
